@@ -633,6 +633,7 @@ static void spin_account(Task &t, uint64_t o, uint64_t val, Loc &L) {
 	(void)L;
 	if (newer) { spin_reset(t); return; }
 	if (count_enabled() == 1 && r.ntasks == 1) { /* single task spinning forever */ }
+	r.eng->on_park(r.cur);
 	t.st = T_PARKED; t.parked_at = r.steps;
 	forced_switch();
 	// resumed: woken by a store
